@@ -551,7 +551,11 @@ class SchedulingSolver(BaseModelWithJson):
                 # should not be assigned to the related task
                 # for each interval
                 lower_bound, _ = req_res._busy_intervals[task]
-                resource_is_assigned = z3_sol[lower_bound].as_long() >= 0
+                # a task that is not scheduled holds no resource
+                resource_is_assigned = (
+                    new_task_solution.scheduled
+                    and z3_sol[lower_bound].as_long() >= 0
+                )
                 # add this resource to assigned resources, anytime
                 if resource_is_assigned and (
                     req_res.name not in new_task_solution.assigned_resources
